@@ -230,6 +230,52 @@ pub fn run(run: &mut Run) {
             cases.push(("break-continue-placement".into(), print_program(&tp).text, true, None, vec![]));
         }
     }
+    // one inserted exit: in every block of every short family program, before every statement and at the end, one of
+    // ret / ret 0 / break / continue / <!> / a do-block ending in ret is inserted (the statements after it become dead
+    // code); whatever the compiler accepts must load
+    {
+        let exits: Vec<(&str, Stmt)> = vec![
+            ("ret", Stmt::Ret(None)),
+            ("ret 0", Stmt::Ret(Some(int(0)))),
+            ("break", Stmt::Break),
+            ("continue", Stmt::Continue),
+            ("<!>", Stmt::Unreachable(0)),
+            ("do ret end", Stmt::Block(vec![Stmt::Ret(None)])),
+            ("do ret 0 end", Stmt::Block(vec![Stmt::Ret(Some(int(0)))])),
+            ("do do ret 0 end end", Stmt::Block(vec![print_of(int(5)), Stmt::Block(vec![Stmt::Ret(Some(int(0)))])])),
+        ];
+        let mut n_ins = 0u64;
+        for (k, (fam, p)) in crate::stmtfam::all_programs_len(1).into_iter().enumerate() {
+            if !thorough && k % 2 == 1 {
+                continue;
+            }
+            let mut shape: Vec<usize> = Vec::new();
+            crate::engines::c02::visit_blocks(&mut p.clone(), &mut |b| {
+                shape.push(b.len());
+                false
+            });
+            for (bi, len) in shape.iter().enumerate() {
+                for pos in 0..=*len {
+                    for (en, ex) in &exits {
+                        let mut q = p.clone();
+                        let mut i = 0;
+                        crate::engines::c02::visit_blocks(&mut q, &mut |b| {
+                            if i == bi {
+                                b.insert(pos, ex.clone());
+                                return true;
+                            }
+                            i += 1;
+                            false
+                        });
+                        number_unreachables(&mut q);
+                        n_ins += 1;
+                        cases.push((format!("inserted-exit:{}", fam), print_program(&q).text, true, None, vec![format!("inserted-exit:{}", en)]));
+                    }
+                }
+            }
+        }
+        let _ = n_ins;
+    }
     let stop = AtomicBool::new(false);
     let _ = &stop;
     let accs = crate::pool::par_items(&cases, 8, |_| Stats::new(), |acc, i, (fam, text, no_std, want, preds)| {
@@ -242,7 +288,7 @@ pub fn run(run: &mut Run) {
     st.merge(Stats::merge_all(accs));
     run.stats = st;
     run.bounds = json!({"families": bounds, "field_names": FIELD_NAMES, "string_alphabet": STR_ALPHABET, "max_string_len": maxlen, "numeric_literals": NUM_LITERALS, "unused_expressions": UNUSED_EXPRS.len(), "sizes": sizes});
-    run.rule = format!("the Lua loader on the output of every successful compile of (a) {} and (b) lexical families: blob field names (Lua keywords and library names), every string literal content up to the length bound over a 23-character alphabet (backslash, quote-like characters, brackets, tab, LF, CR, ESC, NUL, DEL, digits, non-ASCII), numeric literal forms, every expression kind as an unused statement at first/middle/last position, bodies and files of n statements for the listed n with and without std; non-trivial = compiled; distinct by text", crate::engines::c01::FAMILY_RULE);
+    run.rule = format!("the Lua loader on the output of every successful compile of (a) {} and (b) lexical families: blob field names (Lua keywords and library names), every string literal content up to the length bound over a 23-character alphabet (backslash, quote-like characters, brackets, tab, LF, CR, ESC, NUL, DEL, digits, non-ASCII), numeric literal forms, every expression kind as an unused statement at first/middle/last position, bodies and files of n statements for the listed n with and without std; every short family program with one exit statement (ret, ret 0, break, continue, <!>, do-blocks ending in ret) inserted at every position of every block; non-trivial = compiled; distinct by text", crate::engines::c01::FAMILY_RULE);
     run.assumptions = vec![
         "the loader is MiniLua's (full Lua 5.3 grammar, goto/label rules, 200 active locals, 255 upvalues, 200 nesting levels); register allocation limits are not modelled".into(),
         "programs the compiler rejects are not in the domain of the property and are only counted".into(),
